@@ -126,7 +126,7 @@ def make_case(seed: int, stream: int):
     gen, ent, enc, info = cfggen.gen_shell_case(rng, want_multiclient=wmc, hostile_text=True,
                                                 mc_shape=stream // 3, twins=twins,
                                                 mc_position=['first', 'middle', 'last'][(stream // 3) % 3]
-                                                if wmc else None)
+                                                if wmc else None, big=stream % 7 == 6)
     if twins:
         enc['provides'] = {'sts': 'NONE', 'mts': 'ALL'}
         enc['requires'] = {'sts': 'NONE', 'mts': 'ALL'}
@@ -251,6 +251,10 @@ def eval_program(arg) -> dict:
     other_suffix = enc.get('suffix', 'Shell') + 'Two'
     same = dict(enc, suffix=other_suffix)
     alt_prefix = ['QZAlt']
+    if enc.get('prefix') and len('_'.join(enc['prefix'])) > 64:
+        # two long prefixes that differ in their last identifier only
+        alt_prefix = list(enc['prefix'][:-1]) + [enc['prefix'][-1] + 'Other']
+        cnt['programs_with_two_long_prefixes_differing_at_the_end'] = 1
     alt = dict(enc, suffix=enc.get('suffix', 'Shell') + 'Alt', prefix=alt_prefix)
     fc = shellbuild.parse_doc(case['doc'])
     try:
@@ -302,7 +306,7 @@ def main(tier: str) -> int:
     run = common.Run(PROP, tier, level='exploration')
     n = 14 if tier == 'quick' else 300
     scratch = run.scratch()
-    run.require('compiled_with_clang', 'compiled_with_plain', 'compiled_as_c++20', 'compiled_as_c++17',
+    run.require('programs_with_two_long_prefixes_differing_at_the_end', 'compiled_with_clang', 'compiled_with_plain', 'compiled_as_c++20', 'compiled_as_c++17',
                 'tu_alone', 'tu_twice', 'tu_orders', 'programs_linked', 'programs_run',
                 'tu_two_shells', 'programs_coexist', 'kind_global-component', 'kind_random-mc')
     jobs = [(run.seed, i, scratch, tier) for i in range(n)] + \
